@@ -413,7 +413,7 @@ pub fn run(args: &[String]) {
                 // the reading end is closed (the reader thread drops it within 10 ms); the writing end stays open while the service's
                 // replies arrive at the bridge, which finds nobody to forward them to
                 let t0 = Instant::now();
-                while t0.elapsed() < Duration::from_secs(3) {
+                while t0.elapsed() < Duration::from_millis(1500) {
                     if let Ok(Some(_)) = child.try_wait() { break; }
                     std::thread::sleep(Duration::from_millis(5));
                 }
